@@ -674,9 +674,45 @@ func rulesC14(c *Ctx) {
 		}
 		c.Check(okCtx, "middleware:context-carries-verifier-value", hl, nil, "the request context carries verify's TokenInfo under tokenInfoKey{}")
 		// challenge
+		nChal := 0
 		for _, call := range hl.AllCalls(hl.Body, false) {
 			if fn := hl.Callee(call); fn != nil && fn.Name() == "Add" && len(call.Args) == 2 {
 				if s, ok := hl.ConstString(call.Args[0]); ok && s == "WWW-Authenticate" {
+					nChal++
+					// the value is "Bearer " + the joined parameter list, and it is added before the status line is written
+					okVal := false
+					if b, isB := ast.Unparen(call.Args[1]).(*ast.BinaryExpr); isB && b.Op == token.ADD {
+						if pre, isC := hl.ConstString(b.X); isC && pre == "Bearer " {
+							if jc, isCall := ast.Unparen(b.Y).(*ast.CallExpr); isCall && hl.Callee(jc) != nil && hl.Callee(jc).FullName() == "strings.Join" {
+								okVal = true
+							}
+						}
+					}
+					herr0 := c.Std("net/http", "", "Error")
+					before := true
+					for _, ev := range hg.callVertices(herr0) {
+						if hg.ReachableFrom(ev)[hg.VertexOf(call)] {
+							before = false
+						}
+					}
+					c.Check(okVal && before, "middleware:challenge-value", hl, call, "the header value is \"Bearer \" followed by the joined parameters, set before http.Error writes the status")
+					// and it depends on nothing but: a 401/403, options given, at least one parameter
+					extra := ""
+					for _, a := range hg.GuardsAt(hg.VertexOf(call)) {
+						switch {
+						case isCompound(a.E):
+						case AtomSaysNil(a, false, func(e ast.Expr) bool { return hl.ObjOf(e) != nil }): // opts != nil
+						default:
+							if x, y, op, isCmp := binaryCmp(a.E); isCmp {
+								if _, isC := hl.ConstInt(y); isC && (op == token.NEQ || op == token.EQL || op == token.GTR) {
+									_ = x
+									continue
+								}
+							}
+							extra = a.String()
+						}
+					}
+					c.Check(extra == "", "middleware:challenge-not-narrowed", hl, call, "no further condition stands between a 401/403 with parameters and the challenge header (%s)", extra)
 					guards := hg.GuardsAt(hg.VertexOf(call))
 					okSt := hasAtom(guards, func(a Atom) bool {
 						if !a.Val {
@@ -696,6 +732,7 @@ func rulesC14(c *Ctx) {
 				}
 			}
 		}
+		c.Pin("WWW-Authenticate header sites", nChal, 1)
 		src := map[string]bool{}
 		ast.Inspect(hl.Body, func(x ast.Node) bool {
 			if ce, ok := x.(*ast.CallExpr); ok && hl.Callee(ce) != nil && hl.Callee(ce).FullName() == "fmt.Sprintf" && len(ce.Args) == 2 {
@@ -744,4 +781,15 @@ func rulesC14(c *Ctx) {
 			c.Check(!reach, "middleware:reject-then-return", hl, hg.Node(ev), "after writing the rejection the handler is not invoked")
 		}
 	})
+}
+
+// isCompound: &&, || and ! nodes (their operands are listed as atoms of their own).
+func isCompound(e ast.Expr) bool {
+	switch x := e.(type) {
+	case *ast.BinaryExpr:
+		return x.Op == token.LAND || x.Op == token.LOR
+	case *ast.UnaryExpr:
+		return x.Op == token.NOT
+	}
+	return false
 }
